@@ -22,14 +22,15 @@ Variable c : icfg.
 
 Definition len := length text.
 
-(* _eat_regex: `while self._matchre_fast(regex)`; a zero-length match never ends: None = hang *)
+(* _eat_regex: `while self._matchre_fast(regex)`; an empty match counts as no match (it skips nothing).
+   None = fuel exhausted, which cannot happen for an oracle whose matches stay inside the text (InputProof). *)
 Fixpoint eat_f (fuel : nat) (id : nat) (pos : nat) : option (nat * bool) :=
   match fuel with
   | O => None
   | S f =>
     match re_at id pos with
     | None => Some (pos, false)
-    | Some (O, _) => None
+    | Some (O, _) => Some (pos, false)
     | Some (n, _) =>
       match eat_f f id (Nat.min len (pos + n)) with
       | Some (p, _) => Some (p, true)
